@@ -232,6 +232,38 @@ def type_world(tname):
     return w
 
 
+def reject_subclass_quantum(_=None):
+    """(fork) a Python sub-class of a quantity class is a type of its own:
+    its quantities are no valid quanta for the parent (TypeError)"""
+    st = Stats()
+    w = World(catalogue=True)
+    Q = w.q
+    Length = w.types['Length']
+    Depth = type(Length)('Depth', (Length,), {}, ref_unit_symbol='dpth')
+    for self_q, quant, what in (
+            (Length(O.dec('D:2.5')), Depth(1), 'Length by Depth'),
+            (Length(0), Depth(O.dec('D:0.25')), 'zero Length by Depth'),
+            (Depth(O.dec('D:2.5')), Length(1), 'Depth by Length')):
+        for mode in (None, 'ROUND_UP'):
+            st.paths += 1
+            st.transitions += 1
+            st.evaluations += 1
+            st.state(('reject-subclass', what, mode), nontrivial=True)
+            try:
+                r = self_q.quantize(quant) if mode is None else \
+                    self_q.quantize(quant, O.mode_obj(mode))
+                st.violation('C13:reject:subclass-quantum',
+                             f"{what}: quantize returned {r!r}, expected "
+                             "TypeError", {'reject_subclass': True})
+            except TypeError:
+                pass
+            except Exception as exc:
+                st.violation('C13:reject:subclass-quantum',
+                             f"{what}: {type(exc).__name__}: {exc}, expected "
+                             "TypeError", {'reject_subclass': True})
+    return st
+
+
 def part(p, ts, modes):
     tname, s_self, s_quant = p
     st = Stats()
@@ -284,6 +316,10 @@ def replay(case):
     if 'round' in case:
         t, s, x, n = case['round']
         return run_round(w, t, s, F(x), n)
+    if 'reject_subclass' in case:
+        from ..hist import fork_call
+        st = fork_call(reject_subclass_quantum)
+        return [(sig, msg) for sig, (n, msg, cs) in st.viol.items()]
     if 'reject' in case:
         return run_reject(w, case['reject'])
     if 'failure_default' in case:
@@ -316,6 +352,7 @@ def run(tier, seed):
     total.merge(pmap(part, [('NG', a, b) for a in ('g0', 'gneg', 'kgneg')
                             for b in ('g0', 'g2')], (ts, O.MODES),
                      fresh=True))
+    total.merge(pmap(reject_subclass_quantum, [0], fresh=True))
     rparts = [(t, s) for t in TYPES for s in list(O.CATALOGUE[t][3])[:3]]
     total.merge(pmap(part_round, rparts))
     # rejections
